@@ -1,0 +1,35 @@
+//go:build verif
+
+package blockchain
+
+import (
+	"github.com/kardiachain/go-kardia/kai/rawdb"
+	"github.com/kardiachain/go-kardia/kai/state"
+	stypes "github.com/kardiachain/go-kardia/mainchain/staking/types"
+	"github.com/kardiachain/go-kardia/types"
+)
+
+// Verification hooks for the out-of-tree harness (/verif/harness/determinism, property C06).
+// Add-only: exported names for unexported entry points; nothing here is compiled without the
+// `verif` build tag.
+
+// VerifDetCommitBlock runs commitBlock (Galaxias hard-fork switch, mint, finalize, double-sign, the
+// transaction loop with snapshot / revert-and-skip, validator set read-back) on the given state
+// WITHOUT writing anything: the harness re-executes one block on one parent state many times.
+func (bo *BlockOperations) VerifDetCommitBlock(st *state.StateDB, txs types.Transactions, header *types.Header,
+	lastCommit stypes.LastCommitInfo, byzVals []stypes.Evidence) ([]*types.Validator, *types.BlockInfo, error) {
+	return bo.commitBlock(st, txs, header, lastCommit, byzVals)
+}
+
+// VerifDetStateAt opens the state of the given height like StateAt does, with or without the
+// chain's snapshot tree (StateAt always passes it).
+func (bc *BlockChain) VerifDetStateAt(height uint64, withSnapshots bool) (*state.StateDB, error) {
+	root := rawdb.ReadAppHash(bc.db, height)
+	if withSnapshots {
+		return state.New(root, bc.stateCache, bc.snaps)
+	}
+	return state.New(root, bc.stateCache, nil)
+}
+
+// VerifDetHasSnapshots reports whether the chain runs with a snapshot tree.
+func (bc *BlockChain) VerifDetHasSnapshots() bool { return bc.snaps != nil }
